@@ -452,9 +452,9 @@ class RaggedView2:
         mask |= (start >= self.lengths) & (step > 0) # start is  after end and step is negative
         mask |= (stop <= 0) & (step > 0) # stop is before 0 and step is positive
         mask |= (stop >= self.lengths) & (step < 0) # stop is after end and step is negative
-        start = np.maximum(np.minimum(start, self.lengths-1),
-                           0) #put start in range
         d = 0 if step >= 0 else -1
+        start = np.maximum(np.minimum(start, self.lengths-1),
+                           0+d) #put start in range (an empty row has no cell to start a backward slice from)
         stop = np.maximum(np.minimum(stop, self.lengths+d),
                           0+d) # put stop in range
         L = stop-start #length
